@@ -55,6 +55,8 @@ Definition keeps (cur : obj) (o : op) (r : res) : Prop :=
               \/ (exists b, o = OCtorVal b /\ o_cls x = o_cls cur)
               \/ (exists k, o = OAsSat k /\ (o_cls x = 18 \/ o_cls x = 19)
                             /\ nth 0 (o_attrs x) 0 = nth 0 (o_attrs cur) 0)
+              \/ (exists t, o = OXCtor t /\ o_cls x = t /\ (is_ballot t = true -> o_attrs x = o_attrs cur))
+              \/ (o = OFromPlain /\ o_cls x = o_cls cur)
   | RPlain => True
   end.
 
@@ -86,12 +88,30 @@ Proof.
   - (* OCtorVal *) brk; simpl; auto; right; right; left; eexists; split; reflexivity.
   - (* OAsSat *) destruct (is_list_profile (o_cls cur)) eqn:El; simpl.
     + destruct k as [|[|k]]; [| |destruct (forallb _ (o_payload cur))]; simpl; auto;
-        right; right; right; eexists; (split; [reflexivity|]); split; auto.
+        right; right; right; left; eexists; (split; [reflexivity|]); split; auto.
     + destruct (is_multi_profile (o_cls cur)); simpl; auto.
       destruct k as [|[|k]]; [| |destruct (forallb _ (o_payload cur))]; simpl; auto;
-        right; right; right; eexists; (split; [reflexivity|]); split; auto.
+        right; right; right; left; eexists; (split; [reflexivity|]); split; auto.
   - (* OClear *) destruct (base_of (o_cls cur)); simpl; auto.
   - (* OPop *) destruct (is_list_profile (o_cls cur)); simpl; auto. destruct (rev (o_payload cur)); simpl; auto.
+  - (* OXCtor *)
+    destruct (is_ballot (o_cls cur) && is_ballot t) eqn:Eb.
+    { destruct (dictlike t && negb (maplike (o_cls cur))); simpl; auto.
+      right; right; right; right; left. exists t. repeat split. }
+    assert (Hnb : is_ballot t = true -> False \/ is_ballot (o_cls cur) = false).
+    { intros Ht. rewrite Ht, andb_true_r in Eb. right. exact Eb. }
+    destruct (is_list_profile (o_cls cur) && Nat.eqb t (o_cls cur + 4)) eqn:E1.
+    { destruct (o_payload cur); simpl; auto. right; right; right; right; left. exists t. repeat split.
+      intros Ht. exfalso. apply andb_true_iff in E1. destruct E1 as [E1 E2]. apply Nat.eqb_eq in E2. subst t.
+      unfold is_list_profile, is_ballot in *. apply andb_true_iff in E1, Ht. destruct E1 as [A B], Ht as [C D].
+      apply Nat.leb_le in A, B, C, D. lia. }
+    destruct (is_multi_profile (o_cls cur) && Nat.eqb (t + 4) (o_cls cur)) eqn:E2.
+    { simpl. right; right; right; right; left. exists t. repeat split.
+      intros Ht. exfalso. apply andb_true_iff in E2. destruct E2 as [E2 E3]. apply Nat.eqb_eq in E3.
+      unfold is_multi_profile, is_ballot in *. apply andb_true_iff in E2, Ht. destruct E2 as [A B], Ht as [C D].
+      apply Nat.leb_le in A, B, C, D. lia. }
+    simpl; auto.
+  - (* OFromPlain *) brk; simpl; auto; right; right; right; right; right; split; reflexivity.
 Qed.
 
 Lemma nl_eqb_eq l1 : forall l2, nl_eqb l1 l2 = true -> l1 = l2.
@@ -101,6 +121,20 @@ Proof.
 Qed.
 
 Lemma ctorval_not_promised c b : promised c (opname (OCtorVal b)) = false.
+Proof.
+  unfold promised, promised_names.
+  destruct (Nat.eqb c 18 || Nat.eqb c 19); destruct (base_of c); try (vm_compute; reflexivity);
+    destruct (Nat.eqb c 5); vm_compute; reflexivity.
+Qed.
+
+Lemma xctor_not_promised c t : promised c (opname (OXCtor t)) = false.
+Proof.
+  unfold promised, promised_names.
+  destruct (Nat.eqb c 18 || Nat.eqb c 19); destruct (base_of c); try (vm_compute; reflexivity);
+    destruct (Nat.eqb c 5); vm_compute; reflexivity.
+Qed.
+
+Lemma fromplain_not_promised c : promised c (opname OFromPlain) = false.
 Proof.
   unfold promised, promised_names.
   destruct (Nat.eqb c 18 || Nat.eqb c 19); destruct (base_of c); try (vm_compute; reflexivity);
@@ -167,10 +201,12 @@ Proof.
     + intros Hf Hp. split.
       * apply step_promised; rewrite Hc; assumption.
       * intros x Hx Hno. pose proof (step_keeps tags cur other o) as H. rewrite Hx in H. simpl in H.
-        destruct H as [[H1 H2]|[[H1 _]|[[b [H1 _]]|[k [H1 _]]]]]; [|contradiction| |].
+        destruct H as [[H1 H2]|[[H1 _]|[[b [H1 _]]|[[k [H1 _]]|[[t [H1 _]]|[H1 _]]]]]]; [|contradiction| | | |].
         -- rewrite H1, H2. auto.
         -- subst o. rewrite ctorval_not_promised in Hp. discriminate.
         -- subst o. rewrite assat_not_promised in Hp. discriminate.
+        -- subst o. rewrite xctor_not_promised in Hp. discriminate.
+        -- subst o. rewrite fromplain_not_promised in Hp. discriminate.
   - apply IH; destruct (next_same tags cur other o) as [H1 H2]; congruence.
 Qed.
 
@@ -290,7 +326,8 @@ Section Validated.
     pay_ok cur ->
     match o with
     | OCopy | OCCopy | ODeepcopy | OPickle | OCtor | OBin _ _ | ORefl _ | OUpd _ _ | OMul _ | ORmul _ | OSlice _ _
-    | OReversed | OReverse | OCtorVal _ | OInstMut _ | OAsSat _ | OMutate _ | OClear | ORemoveSat => True
+    | OReversed | OReverse | OCtorVal _ | OInstMut _ | OAsSat _ | OMutate _ | OClear | ORemoveSat | OXCtor _
+    | OFromPlain => True
     | _ => False
     end ->
     forall x, (step tags cur other o = RRaise x \/ step tags cur other o = RSame x
@@ -312,6 +349,15 @@ Section Validated.
       destruct (smemb name _); fin Hok.
     - (* OClear *) destruct (base_of (o_cls cur)); fin Hok; apply adm_nil.
     - (* ORemoveSat *) destruct (Nat.eqb (o_cls cur) 18 || Nat.eqb (o_cls cur) 19); fin Hok. apply adm_nil.
+    - (* OXCtor *)
+      destruct (is_ballot (o_cls cur) && is_ballot t); [destruct (dictlike t && negb (maplike (o_cls cur))); fin Hok; apply adm_nil|].
+      destruct (is_list_profile (o_cls cur) && Nat.eqb t (o_cls cur + 4));
+        [destruct (o_payload cur) eqn:Ep; fin Hok; [apply adm_nil|rewrite Ep; exact Hok]|].
+      destruct (is_multi_profile (o_cls cur) && Nat.eqb (t + 4) (o_cls cur)); fin Hok; apply adm_nil.
+    - (* OFromPlain *)
+      destruct (is_list_profile (o_cls cur) || is_multi_profile (o_cls cur)); [|fin Hok; apply adm_nil].
+      destruct (all_valid tags (o_cls cur) _ (o_payload cur)) eqn:E; simpl; [|fin Hok].
+      destruct (forallb _ (o_payload cur)); fin Hok. apply all_valid_adm. exact E.
   Qed.
 
   (* every mutator and every deriving operation of a LIST profile leaves an admissible payload *)
